@@ -196,8 +196,13 @@ func ReadOptions(r *packet.Reader) Options {
 		tag := binary.BigEndian.Uint16(temp[:2])
 		length := binary.BigEndian.Uint16(temp[2:4])
 
-		// read left value
-		value := make([]byte, length)
+		// read left value. Never allocate more than the input can fill: the announced length has not been
+		// checked yet (one octet more than is left keeps the short-read error below as it was).
+		n := int(length)
+		if n > r.Remaining() {
+			n = r.Remaining() + 1
+		}
+		value := make([]byte, n)
 		r.ReadBytes(value)
 		if e := r.Error(); e != nil {
 			if errors.Is(r.Error(), io.EOF) {
